@@ -105,7 +105,9 @@ static void do_op(const char *op)
 		for (long i = 0; i < 20000000 && __atomic_load_n(&sync_arrived, __ATOMIC_SEQ_CST) < nsync_threads; i++)
 			;
 	} else if (!strcmp(op, "thread_init")) {
-		ovni_thread_init(100 + me + 1);
+		/* VERIF_TID_BASE: thread ids base+1, base+2, ... (default 100); with 2147483640 they are ten
+		 * digits long and differ in the last digit only */
+		ovni_thread_init((getenv("VERIF_TID_BASE") ? atoi(getenv("VERIF_TID_BASE")) : 100) + me + 1);
 	} else if (!strcmp(op, "emit")) {
 		struct ovni_ev ev = {0};
 		/* a correct program only reads the clock once its thread is initialised
